@@ -498,7 +498,7 @@ SU_vector SU_vector::Rotate(const gsl_matrix_complex* m) const{
 
 SU_vector SU_vector::Imag(void) const{
   SU_vector suv(dim);
-  for(int i=0;i<dim-1;i++){
+  for(int i=0;i+1<dim;i++){
     for(int j=0;j<i+1;j++){
       suv[dim+i*dim+j]=components[dim+i*dim+j];
     }
@@ -511,7 +511,7 @@ SU_vector SU_vector::Real(void) const{
   for(int i=0;i<dim*dim;i++){
     suv[i]=components[i];
   }
-  for(int i=0;i<dim-1;i++){
+  for(int i=0;i+1<dim;i++){
     for(int j=0;j<i+1;j++){
       suv[dim+i*dim+j]=0;
     }
@@ -614,7 +614,7 @@ void SU_vector::RotateToB1(const Const& param){
 }
 
 void SU_vector::Transpose(void){
-  for(int i=0;i<dim-1;i++){
+  for(int i=0;i+1<dim;i++){
     for(int j=0;j<i+1;j++){
       components[dim+i*dim+j]=(-components[dim+i*dim+j]);
     }
@@ -727,6 +727,8 @@ SU_vector& SU_vector::operator /=(double x){
 }
 
 std::ostream& operator<<(std::ostream& os, const SU_vector& V){
+  if(V.size==0) //an empty vector has nothing to print
+    return os;
   for(unsigned int i=0; i< V.size-1; i++)
     os << V.components[i] << "  ";
   os << V.components[V.size-1];
